@@ -130,7 +130,7 @@ Definition check_call (p : pcase) (vb : list vfunc) (vi : option (list vfunc)) (
      end) ++
     (match co_go c with
      | XOther => []
-     | g => match sem_matches (call_sem nf (pc_funs p) fuel (co_fn c) (co_args c)) g with
+     | g => match sem_matches (call_sem (nat_sig cfg) nf (pc_funs p) fuel (co_fn c) (co_args c)) g with
             | Some true => [] | Some false => [(j, c_sem_go)] | None => [(j, c_inconclusive + 2)] end
      end)
   end.
